@@ -73,6 +73,9 @@ pub fn check(c: &ParCase, st: &mut Stats) -> Result<(), Fail> {
     let cfg = PoolCfg { workers, queue: frames.len() + 16, batch: 1 + (c.batch % 64) as usize, timeout_ms: 1 + (c.timeout_ms % 20) as u64, dispatchers: 1, perturb: Some(c.perturb), max_sleep_us: 200 };
     let reference = sequential(kind, &pk);
     let run = run_pool(kind, &frames, &cfg, None, Some(clock)).map_err(|e| fail!("pool:new", "{e}"))?;
+    if let Some(p) = &run.worker_panic {
+        return Err(Fail::new(format!("{:?}:worker-{}", kind, crate::engine::panic_key(p)), format!("a worker thread panicked: {p}")));
+    }
     if run.drain_timeout {
         st.class("drain-timeout(inconclusive)");
         st.discards += 1;
